@@ -55,7 +55,7 @@ def step (fs : List Frame) : Ev → Option (List Frame)
   | .startList _ => if blockAllowed fs then some (.list false :: fs) else none
   | .startHtml => if blockAllowed fs then some (.html :: fs) else none
   | .rule _ _ => if blockAllowed fs then some fs else none
-  | .startMeta => match fs with | [] => some [.metadata] | _ => none
+  | .startMeta => if blockAllowed fs then some (.metadata :: fs) else none   -- also inside quotes and items (finding D24)
   | .endPara => match fs with | .para :: r => some r | _ => none
   | .endHeading => match fs with | .heading :: r => some r | _ => none
   | .endQuote => match fs with | .quote :: r => some r | _ => none
